@@ -49,7 +49,7 @@ def main():
     if res.violated:
         pv.log("INFRA: Lehmann.tla self-check %s failed" % res.violated)
         sys.exit(2)
-    betas = ["0.3", "2.0", "15.0"] if not thorough else ["0.05", "0.3", "2.0", "15.0", "120.0"]
+    betas = ["0.3", "2.0", "15.0", "400.0"] if not thorough else ["0.05", "0.3", "2.0", "15.0", "120.0", "400.0", "900.0"]   # beta |pole| up to ~2000: both overflow-avoiding branches of the tau form
     recs, crashed = pv.run_driver_resilient(exe, [exact.scenario(m, pred[m["id"]], queries=[{"q": "index"}]) for m in ms], timeout=3000)
     tabs = {r["id"]: r["tab"] for r in recs if r.get("e") == "Q" and "tab" in r}
     scen = []
